@@ -69,6 +69,15 @@ def cases(seed, tier):
             hspec = {"h0": [{"polls": rng.randint(0, 3)} for _ in range(4)]}
             extra["prekill_hook_timeout"] = str(rng.choice([1, 3, 10]))
             ticks = [{"step_ns": 10**9} for _ in range(rng.randint(5, 8))]
+            if rng.random() < 0.5:
+                # processes exit on their own while the hook runs: the victim chosen as populated is empty when its turn comes,
+                # which is still a wet attempt (marked, ooms+1, kill+0) followed by the next candidate
+                for t in range(1, len(ticks)):
+                    for rel in info:
+                        if info[rel]["pids"] and not info[rel]["children"] and rng.random() < 0.25:
+                            ticks[t].setdefault("ops", []).append({"op": "write", "cg": rel, "file": "cgroup.procs", "text": ""})
+                            ticks[t]["ops"].append({"op": "write", "cg": rel, "file": "cgroup.events", "text": "populated 0\nfrozen 0\n"})
+                            ticks[t]["ops"].append({"op": "write", "cg": rel, "file": "pids.current", "text": "0\n"})
         scn = KG.base_scn(cid, cgs, KG.kill_config(plugin, args, extra, hooks=hooks), ticks=ticks, kill=kill, linger=linger, hooks=hspec)
         if rng.random() < 0.15:
             scn["xattr_fail"] = rng.choice(["EPERM", "ENOTSUP"])
@@ -130,6 +139,17 @@ def judge(case, results):
                     v.bad("return-value", "dry-nothing", "tick %d: nothing selected but the next action did not run" % inv.tick)
             continue
         nsignal = 0
+        # an attempt is known by what it does to the victim; whatever part of it happens without (or before) the uuid / ooms
+        # marking of that cgroup is an attempt the xattrs do not record
+        for e in inv.stray:
+            if e["ev"] == "kill" or (e["ev"] == "write" and e["path"].rsplit("/", 1)[1] in ("cgroup.kill", "cgroup.freeze")):
+                v.bad("unmarked-attempt", e["ev"] if e["ev"] == "kill" else e["path"].rsplit("/", 1)[1],
+                      "tick %d: %s before any cgroup was marked with an attempt id" % (inv.tick, {k: e[k] for k in e if k not in ("seq", "t")}))
+        for a in inv.attempts:
+            for e in a.writes:
+                d, f = e["path"].rsplit("/", 1)
+                if f in ("cgroup.kill", "cgroup.freeze") and KT.cgrel(d) != a.victim:
+                    v.bad("unmarked-attempt", f, "tick %d: write %r to %s although the cgroup marked with the attempt id is %s" % (inv.tick, e["data"][:10], e["path"], a.victim))
         for a in inv.attempts:
             st = xa.setdefault(a.victim, {})
             # uuid
